@@ -384,7 +384,7 @@ Lemma int_literal now fs v :
   forallb (fun o => match o with Some cf => int_safe (cf_elems cf) | None => false end) fs = true ->
   in_int64 v = true -> lql_parse now fs (format_int v) = LAbs v.
 Proof.
-  intros Hfs Hr. pose proof (parse_format_int v Hr) as HP. unfold lql_parse.
+  intros Hfs Hr. pose proof (parse_format_int v Hr) as HP. unfold lql_parse, lql_parse_v, code_lowers_absolute. cbv zeta.
   assert (T : exists b tl, format_int v = b :: tl /\ digs tl /\
               ((is_digit b = true) \/ (b = x2d /\ exists d tl', rev tl = d :: tl' /\ is_digit d = true))).
   { unfold in_int64 in Hr. unfold format_int. destruct (v <? 0) eqn:E.
